@@ -148,3 +148,31 @@ Definition set_run_result_category_localized (contact_lang : lang) (allowed : li
 Definition category_localized (contact_lang : lang) (allowed : list lang) (base : lang)
            (tr : translations) : text :=
   fst (get_text1 contact_lang allowed base [] tr).
+
+(* ---- the other senders of localized text: send_email, say_msg, play_audio (flows/actions/send_email.go,
+   say_msg.go, play_audio.go).  Each resolves its properties with GetText (get_text1). -------------------- *)
+
+(* SendEmailAction.Execute: subject and body; the email is skipped (error event) when either is empty *)
+Definition send_email_texts (contact_lang : lang) (allowed : list lang) (base : lang)
+           (subject body : text) (tr_subject tr_body : translations) : option (text * text) :=
+  let s := fst (get_text1 contact_lang allowed base subject tr_subject) in
+  let b := fst (get_text1 contact_lang allowed base body tr_body) in
+  if text_empty s || text_empty b then None else Some (s, b).
+
+(* an IVR message: text, audio URL ("" = no attachment), language reported in its locale *)
+Record ivr_out := { i_text : text; i_audio : text; i_lang : lang }.
+
+(* SayMsgAction.Execute: text and audio URL resolved separately; skipped when both are empty; the locale names the
+   language of the TEXT *)
+Definition say_msg_out (contact_lang : lang) (allowed : list lang) (base : lang)
+           (txt audio : text) (tr_txt tr_audio : translations) : option ivr_out :=
+  let '(t, tl) := get_text1 contact_lang allowed base txt tr_txt in
+  let a := fst (get_text1 contact_lang allowed base audio tr_audio) in
+  if text_empty t && text_empty a then None else Some {| i_text := t; i_audio := a; i_lang := tl |}.
+
+(* PlayAudioAction.Execute: a text-less message; skipped when the URL is empty; the locale names the language of the
+   audio URL (the message's only attachment) *)
+Definition play_audio_out (contact_lang : lang) (allowed : list lang) (base : lang)
+           (audio : text) (tr_audio : translations) : option ivr_out :=
+  let '(a, al) := get_text1 contact_lang allowed base audio tr_audio in
+  if text_empty a then None else Some {| i_text := []; i_audio := a; i_lang := al |}.
